@@ -346,6 +346,22 @@ def walk_rules(prog, rep):
         wrap = fa is not None and all(x == tm.param("func_or_funcs") or (x.op == "alloc" and x.args[0] == "list") for x in tm.alts(fa))
         ok = ok and wrap
     rep.check(ok, "R-C14-g", fi.fq, "walk starts _walk(self.dims, (), None, [callbacks])", "", "walk does not start at the empty coordinate with no base rows")
+    # ... and starts it unconditionally: a dimension WITHOUT entries is one all of whose rows hold the common value, not an
+    # empty one - the margins of the other dimensions still have to be presented
+    if calls:
+        c0 = calls[0]
+        data_guards = [g for g in c0.guards if tm.contains(g[0], lambda x: x.op == "attr" and x.args[1] == "dims")]
+        exits = [e for e in I.events if e.kind in ("return", "raise") and e.seq < c0.seq and not e.stack]
+        cons_u = "walk starts the recursion for every cube (no early exit, no condition on the dimensions' entries)"
+        if data_guards or [e for e in exits if any(tm.contains(g[0], lambda x: x.op == "attr" and x.args[1] == "dims") for g in e.guards)]:
+            g0 = (data_guards or [g for e in exits for g in e.guards])[0]
+            rep.violated("R-C14-g", "%s@%d" % (fi.fq, c0.line), cons_u,
+                         "the recursion is skipped depending on %s: a dimension with no stored entry (every row holds its common value) still has rows, and the margins of the other dimensions are never presented" % tm.show(g0[0])[:70],
+                         witness={"inputs": "a dimension whose rows all hold the common value crossed with another dimension: only the grand total is known, differencing puts it all in the all-common cell"})
+        elif exits or c0.guards:
+            rep.undecided("R-C14-g", "%s@%d" % (fi.fq, c0.line), cons_u, "the start of the recursion is conditional (%s)" % [tm.show(g[0])[:40] for g in c0.guards][:2])
+        else:
+            rep.proved("R-C14-g", fi.fq, cons_u, "")
     fi2 = prog.func("ccubes", "ccube.interactions")
     I2 = Interp(prog, hints.param_types_for("ccubes"), hints.FIELD_TYPES, inline=False)
     fr = I2.run(fi2)
